@@ -97,13 +97,13 @@ PROPS["C14"] = {
 }
 
 PROPS["C16"] = {
-    "modules": ["CC.Props.C16"], "campaigns": [hist("C16", BOTH)], "quick_configs": ONE,
-    "level_text": "PARTIAL. Lean theorems over the model with the CSPRNG idealised as a counter of fresh tokens: the seed of every encapsulation, the AEAD nonce of every PKE ciphertext and of every encrypted metadata, the markers of every user id and the secret of every rekey are draws of their own and the counter only moves forward, so values of different calls differ for any history; the metadata key differs from the returned secret. The part a model cannot exhibit (weak or mis-seeded generator, cloned state, entropy failure) is only supported by a long run of identical calls across threads and instances whose extracted tags, traps, masked seeds, ciphertexts, nonces, ids and public values must be pairwise distinct",
+    "modules": ["CC.Props.C16", "CC.Props.C19Conc"], "campaigns": [hist("C16", BOTH)], "quick_configs": ONE, "tables": {"locks": "supporting"},
+    "level_text": "PARTIAL. Lean theorems over the model with the CSPRNG idealised as a counter of fresh tokens: the seed of every encapsulation, the AEAD nonce of every PKE ciphertext and of every encrypted metadata, the markers of every user id and the secret of every rekey are draws of their own and the counter only moves forward, so values of different calls differ for any history; the metadata key differs from the returned secret. The part a model cannot exhibit (weak or mis-seeded generator, cloned state, entropy failure) is only supported by a long run of identical calls across threads and instances whose extracted tags, traps, masked seeds, ciphertexts, nonces, ids and public values must be pairwise distinct. Across threads (CC.Props.C19Conc): with a draw modelled as a read-modify-write of the shared generator state, for any threads whose accesses follow the guard discipline and any schedule the blocks of tokens handed out never overlap and no update is lost (draws_disjoint, counter_exact), with converse witnesses for an access outside the discipline (snapshot_breaks, unlocked_breaks)",
     "level_note": "CsRng idealised: every draw is a fresh atom; hash / KDF outputs injective in their inputs; the statistical run is support, not proof",
 }
 PROPS["C19"] = {
-    "modules": ["CC.Props.C19"], "campaigns": [hist("C19", BOTH)], "quick_configs": ONE, "tables": {"locks": "required"},
-    "level_text": "PARTIAL. The lock-acquisition structure of every public function of api.rs and of EncryptedHeader::{generate,decrypt} is re-extracted from the source on every run; Lean theorems: the table is well nested (no acquisition and no call to a locking function while the guard is held: `decide`), and for any number of threads running any sequences of well-nested calls: mutual exclusion, no deadlock (progress), preservation of the invariant, and termination of every schedule (each step consumes an event). The Rust memory model, the Mutex implementation, poisoning and OS scheduling are outside the model: a 2..16-thread stress run on one shared instance with result checks and a watchdog is support for that part",
+    "modules": ["CC.Props.C19", "CC.Props.C19Conc"], "campaigns": [hist("C19", BOTH)], "quick_configs": ONE, "tables": {"locks": "required"},
+    "level_text": "PARTIAL. The lock-acquisition structure of every public function of api.rs and of EncryptedHeader::{generate,decrypt} is re-extracted from the source on every run; Lean theorems: the table is well nested (no acquisition and no call to a locking function while the guard is held: `decide`), and for any number of threads running any sequences of well-nested calls: mutual exclusion, no deadlock (progress), preservation of the invariant, and termination of every schedule (each step consumes an event); with the generator's state in the model (CC.Props.C19Conc; a draw = load / store of the shared state, sections built from the regenerated table): for every schedule the invariant holds, a thread between load and store holds the mutex and sees the current state, the blocks of tokens handed out to all threads are consecutive and never overlap, the final state is the initial one advanced by the sum of all draws (what a serial execution gives), no deadlock, every step consumes an event; the places of the library that construct or duplicate a generator are re-extracted on every run and must all be constructors (generator_sites_are_constructors); witnesses snapshot_breaks / unlocked_breaks show what is lost without the discipline. The Rust memory model, the Mutex implementation, poisoning and OS scheduling are outside the model: a 2..16-thread stress run on one shared instance with result checks and a watchdog is support for that part",
     "level_note": "std::sync::Mutex idealised (mutual exclusion; guard released at end of scope: temporaries at the end of the statement, `let` guards at the end of the block); tools/gen_tables.py (a small tokenizer, fail-closed) trusted",
 }
 
